@@ -18,7 +18,7 @@ func init() {
 	Register("C23", &Info{
 		Run:   runC23,
 		Quick: 7500, Thor: 1000000,
-		Rule: "a world = one generated TLS 1.3-only QUIC ClientHello spec with quic_transport_parameters (drawn suites, groups incl. ones without a share to force HelloRetryRequest, ALPN, GREASE, transport parameters) on a UQUICConn, paired with the repository's or the std library's QUIC server and driven through Start / HandleData / NextEvent by a pump task that delivers CRYPTO data in drawn chunk sizes (40%: out of one receive buffer that is overwritten right after every HandleData call) and serves one event per step from the client or the server in a drawn interleaving (draining, eager: the server's answer is handed to HandleData before NextEvent has reported QUICNoEvent, mixed per step); after a Start that failed, HandleData and SetTransportParameters are called too; 35% of the fault-free worlds are the second connection of a resumption history (a first QUIC connection completes, the server sends a session ticket, the spec ends in pre_shared_key); Start is given a cancelable context or one that can never be cancelled (Background, WithoutCancel); faults: context cancelled at a drawn scheduler step, Close at a drawn pump iteration, server-side failure (no common ALPN), unbuildable ClientHello (PSK parrot without session, Config.Rand failing at its n-th read, unsupported curve in a key share); oracle: fault-free worlds complete on both sides; the ClientHello (first Initial-level CRYPTO data) parses under the strict grammar with an empty legacy session id; client events: per level the write secret precedes the read secret, the application read secret comes only after HandshakeDone, peer transport parameters are delivered exactly once and equal what the server set; Start, HandleData and Close return in every world (a world in which a task is blocked forever is the violation); non-trivial = >=1 HandleData (failure stratum: the injected fault fired); distinct = (spec, server, chunking, fault)",
+		Rule: "a world = one generated TLS 1.3-only QUIC ClientHello spec with quic_transport_parameters (drawn suites, groups incl. ones without a share to force HelloRetryRequest, ALPN, GREASE, transport parameters) on a UQUICConn, paired with the repository's or the std library's QUIC server and driven through Start / HandleData / NextEvent by a pump task that delivers CRYPTO data in drawn chunk sizes (40%: out of one receive buffer that is overwritten right after every HandleData call) and serves one event per step from the client or the server in a drawn interleaving (draining, eager: the server's answer is handed to HandleData before NextEvent has reported QUICNoEvent, mixed per step); after a Start that failed, HandleData and SetTransportParameters are called too; 35% of the fault-free worlds are the second connection of a resumption history (a first QUIC connection completes, the server sends a session ticket, the spec ends in pre_shared_key); Start is given a cancelable context or one that can never be cancelled (Background, WithoutCancel); fault-free worlds end with a server session ticket delivered whole, byte by byte or cut 1-4 bytes before its end (HandleData must accept it); faults: context cancelled at a drawn scheduler step, Close at a drawn pump iteration, CRYPTO data at the wrong encryption level at a drawn pump iteration, server-side failure (no common ALPN), unbuildable ClientHello (PSK parrot without session, Config.Rand failing at its n-th read, unsupported curve in a key share); oracle: fault-free worlds complete on both sides; the ClientHello (first Initial-level CRYPTO data) parses under the strict grammar with an empty legacy session id; client events: per level the write secret precedes the read secret, the application read secret comes only after HandshakeDone, peer transport parameters are delivered exactly once and equal what the server set; Start, HandleData and Close return in every world (a world in which a task is blocked forever is the violation); non-trivial = >=1 HandleData (failure stratum: the injected fault fired); distinct = (spec, server, chunking, fault)",
 		Assumptions: []string{"the QUIC layer (packet protection, CRYPTO frames, CONNECTION_CLOSE) is the harness's pump: only the TLS-QUIC interface of RFC 9001 is exercised",
 			"no compatibility CCS can exist in QUIC (there is no record layer); the clause is covered by checking that only handshake bytes appear in CRYPTO data"},
 		Real: []string{"utls UQUICConn / UConn handshake from /repo", "utls QUICServer or std crypto/tls QUICServer"},
@@ -148,7 +148,12 @@ func runC23(c *Ctx) {
 	quicSpecWithPSK = false
 	newSpec, desc := genQUICSpec(ch, scid[:])
 	peer := ch.Pick(2, "peer")
-	fault := []string{"none", "none", "none", "cancel", "close", "server-fail", "unbuildable-psk", "unbuildable-rand", "unbuildable-curve"}[ch.Pick(9, "fault")]
+	fault := []string{"none", "none", "none", "cancel", "close", "server-fail", "unbuildable-psk", "unbuildable-rand", "unbuildable-curve", "wrong-level-data"}[ch.Pick(10, "fault")]
+	wrongLevelAt := ch.Range(0, 6, "wrong-level-at")
+	wrongLevel := []tls.QUICEncryptionLevel{tls.QUICEncryptionLevelHandshake, tls.QUICEncryptionLevelApplication, tls.QUICEncryptionLevelInitial, tls.QUICEncryptionLevelEarly}[ch.Pick(4, "wrong-level")]
+	// fault-free worlds: after the handshake the server issues a session ticket (a post-handshake
+	// message) which reaches the client whole, byte by byte, or cut 1-4 bytes before its end
+	ticketCut := ch.Pick(7, "ticket-cut")
 	resume := fault == "none" && ch.Bool(35, "quic-resume")
 	cancelAt := ch.Range(0, 400, "cancel-step")
 	quicSpecWithPSK = resume
@@ -206,6 +211,8 @@ func runC23(c *Ctx) {
 		ccfg.OmitEmptyPsk = true
 	}
 	prelimOK := false
+	var ticketErr error
+	ticketDelivered, wrongLevelReturned := false, false
 	prelim := func() {
 		s0 := newSrv()
 		c0 := tls.UQUICClient(&tls.QUICConfig{TLSConfig: ccfg}, tls.HelloCustom)
@@ -401,6 +408,16 @@ func runC23(c *Ctx) {
 		}
 		idle := 0
 		for iter := 0; iter < 800 && hdErr == nil; iter++ {
+			if fault == "wrong-level-data" && iter == wrongLevelAt {
+				// CRYPTO data at a level the handshake is not reading at (a peer can send that at any
+				// moment): the call must return - with an error, and every later call too
+				wlErr := cq.HandleData(wrongLevel, []byte{11, 0, 0, 3, 0, 0, 0})
+				wrongLevelReturned = true
+				c.Fault("wrong-level-data", 1)
+				if wlErr != nil {
+					break
+				}
+			}
 			if fault == "close" && iter == closeAt {
 				closeErr = cq.Close()
 				closeReturned = true
@@ -423,6 +440,37 @@ func runC23(c *Ctx) {
 				break
 			}
 			simrt.Yield()
+		}
+		if fault == "none" && clientDone && srv.Done() && hdErr == nil && ticketCut > 0 && srv.SendTicket() == nil {
+			for {
+				k, lvl, d := srv.Next()
+				if k == qNone {
+					break
+				}
+				if k != qWriteData {
+					continue
+				}
+				var pieces [][]byte
+				switch {
+				case ticketCut <= 4 && len(d) > ticketCut:
+					pieces = [][]byte{d[:len(d)-ticketCut], d[len(d)-ticketCut:]}
+				case ticketCut == 5:
+					for i := range d {
+						pieces = append(pieces, d[i:i+1])
+					}
+				default:
+					pieces = [][]byte{d}
+				}
+				for _, pc := range pieces {
+					if err := cq.HandleData(tls.QUICEncryptionLevel(lvl), append([]byte(nil), pc...)); err != nil {
+						ticketErr = err
+						break
+					}
+				}
+				ticketDelivered = true
+			}
+			for cq.NextEvent().Kind != tls.QUICNoEvent {
+			}
 		}
 		closeErr = cq.Close()
 		closeReturned = true
@@ -451,6 +499,8 @@ func runC23(c *Ctx) {
 				what = "Start"
 			} else if fault == "close" && !closeReturned {
 				what = "Close"
+			} else if fault == "wrong-level-data" && !wrongLevelReturned {
+				what = "HandleData(wrong level)"
 			}
 			c.R.Violation.Class = fmt.Sprintf("quic-call-never-returned call=%s fault=%s", what, fault)
 		}
@@ -499,6 +549,13 @@ func runC23(c *Ctx) {
 			hrr := forceHRR
 			_ = hrr
 			c.Violate(fmt.Sprintf("quic-handshake-did-not-complete sel=%s %v", quicSel(firstFlight, serverFirst), firstErr(startErr, hdErr)), "%s: clientDone=%v serverDone=%v start=%v handle=%v srvFailed=%v", c.R.Class, clientDone, srv.Done(), startErr, hdErr, srvFailed)
+			return
+		}
+	}
+	if ticketDelivered {
+		c.Probe(fmt.Sprintf("post-handshake-ticket-cut=%d", ticketCut))
+		if ticketErr != nil {
+			c.Violate("quic-post-handshake-ticket-refused", "%s: HandleData returned %v for an honest NewSessionTicket delivered with cut=%d", c.R.Class, ticketErr, ticketCut)
 			return
 		}
 	}
